@@ -222,6 +222,15 @@ func genC19(t *rapid.T) *C19Case {
 			}
 			for i := range g.Options {
 				o := &g.Options[i]
+				// names are taken literally, blanks included
+				if o.Long != "" && rapid.IntRange(0, 19).Draw(t, "blankName") == 0 {
+					o.Long = rapid.SampledFrom([]string{" ", "\u00a0", "\t"}).Draw(t, "blankLead") + o.Long
+				} else if o.Long != "" && rapid.IntRange(0, 19).Draw(t, "blankNameTail") == 0 {
+					o.Long += rapid.SampledFrom([]string{" ", "\u00a0", "  "}).Draw(t, "blankTail")
+				}
+				if rapid.IntRange(0, 39).Draw(t, "blankShort") == 0 {
+					o.Short = rapid.SampledFrom([]string{"\u00a0", " ", "\u3000"}).Draw(t, "blankShortRune")
+				}
 				if rapid.Bool().Draw(t, "optText") {
 					o.Desc = c19Str(t, "desc")
 					if !o.Kind.IsFlag() && !o.Kind.IsFunc() {
@@ -342,7 +351,20 @@ func genC19(t *rapid.T) *C19Case {
 			})
 		})
 		bad := rapid.SampledFrom([]string{`group"x"`, `group:"x`, `command:x`, `group:"x" namespace:"\q"`, "group:\"a\nb\"", `description:"d" group`, `command:"c" alias:"a`}).Draw(t, "badFieldTag")
-		if len(gs)+len(cs) > 0 {
+		// ... or on a field of a positional-args struct
+		var pas []*PosArg
+		d.EachCmd(func(cm *Cmd, _ []*Cmd) {
+			if cm.Pos != nil {
+				for i := range cm.Pos.Args {
+					pas = append(pas, &cm.Pos.Args[i])
+				}
+			}
+		})
+		if len(pas) > 0 && rapid.IntRange(0, 2).Draw(t, "badPosTag") == 0 {
+			pb := rapid.SampledFrom([]string{`description:"where to`, `positional-arg-name`, `positional-arg-name:"x" description:d`, `required:"1" description:"a\qb"`, "description:\"a\nb\""}).Draw(t, "badPosTagText")
+			pas[rapid.IntRange(0, len(pas)-1).Draw(t, "badPosAt")].RawTag = &pb
+			c.Note = "malformed positional field tag"
+		} else if len(gs)+len(cs) > 0 {
 			i := rapid.IntRange(0, len(gs)+len(cs)-1).Draw(t, "badFieldAt")
 			if i < len(gs) {
 				gs[i].RawTag = &bad
@@ -353,7 +375,7 @@ func genC19(t *rapid.T) *C19Case {
 		}
 	case 2: // short name too long
 		o := pick("shortOpt")
-		o.Short = rapid.SampledFrom([]string{"ab", "éé", "xyz", "a ", "日本"}).Draw(t, "longShort")
+		o.Short = rapid.SampledFrom([]string{"ab", "éé", "xyz", "a ", "日本", " b", "v\u00a0", "\u00a0\u00a0"}).Draw(t, "longShort")
 		c.Note = "short name too long"
 	case 3: // default on a flag
 		for _, oi := range opts {
@@ -539,6 +561,11 @@ func c19Oracle(c *C19Case) string {
 		}
 		check(cm.RawTag)
 		cm.G.EachGroup(func(g *Group, _ []*Group) { check(g.RawTag) })
+		if cm.Pos != nil {
+			for i := range cm.Pos.Args {
+				check(cm.Pos.Args[i].RawTag)
+			}
+		}
 	})
 	// duplicates per declaration unit (one added struct / one command struct)
 	d.EachCmd(func(cm *Cmd, chain []*Cmd) {
